@@ -39,6 +39,36 @@ pub enum Loc {
     Pc(i32),
 }
 
+/// One of the documented spellings of a non-negative integer (radix letters in either case, the
+/// optional zero before them, `#`, a plus sign before or after the prefix); every candidate is
+/// shown to the reference grammar first and only used if that reads it back as the same number.
+pub fn spell(m: u64, pick: u64) -> String {
+    let c = &match pick % 18 {
+        0 => format!("{}", m),
+        1 => format!("x{:x}", m),
+        2 => format!("#{}", m),
+        3 => format!("0x{:X}", m),
+        4 => format!("X{:X}", m),
+        5 => format!("0X{:x}", m),
+        6 => format!("o{:o}", m),
+        7 => format!("O{:o}", m),
+        8 => format!("b{:b}", m),
+        9 => format!("0b{:b}", m),
+        10 => format!("0o{:o}", m),
+        11 => format!("B{:b}", m),
+        12 => format!("+{}", m),
+        13 => format!("x+{:x}", m),
+        14 => format!("+X{:X}", m),
+        15 => format!("#+{}", m),
+        16 => format!("0B{:b}", m),
+        _ => format!("0O{:o}", m),
+    };
+    match crate::refcmd::integer(c) {
+        crate::refcmd::IntRes::Value(v) if v == m as i64 => c.clone(),
+        _ => format!("x{:x}", m),
+    }
+}
+
 impl Loc {
     /// Address as a mathematical integer; valid only inside [origin, 0xFE00).
     pub fn resolve(&self, pc: u16, orig: u16) -> Option<u16> {
@@ -56,12 +86,11 @@ impl Loc {
     pub fn text(&self, pick: u64) -> String {
         let num = |v: i64, pick: u64| -> String {
             let (neg, m) = (v < 0, v.unsigned_abs());
-            let body = match pick % 4 {
-                0 => format!("{}", m),
-                1 => format!("x{:x}", m),
-                2 => format!("#{}", m),
-                _ => format!("0x{:X}", m),
-            };
+            // (a sign of its own is added below: candidates that carry one are skipped)
+            let mut body = spell(m, pick);
+            if body.contains('+') {
+                body = format!("x{:x}", m);
+            }
             if neg {
                 format!("-{}", body)
             } else {
@@ -69,12 +98,18 @@ impl Loc {
             }
         };
         match self {
-            Loc::Abs(a) => match pick % 3 {
+            Loc::Abs(a) => match pick % 5 {
                 0 => format!("x{:04x}", a),
                 1 => format!("0x{:04X}", a),
-                _ => format!("{}", a),
+                2 => format!("{}", a),
+                _ => spell(*a as u64, pick / 5),
             },
-            Loc::Label(name, _, 0) if pick % 2 == 0 => name.clone(),
+            // (bare only if the reference grammar reads the bare name as a label: `b10` alone is a number)
+            Loc::Label(name, _, 0)
+                if pick % 2 == 0 && matches!(crate::refcmd::memory_location(name), Ok(crate::refcmd::RLoc::Label(n, 0)) if n == *name) =>
+            {
+                name.clone()
+            }
             Loc::Label(name, _, off) => {
                 if *off < 0 {
                     format!("{}{}", name, num(*off as i64, pick / 2))
@@ -95,6 +130,14 @@ impl Cmd {
     /// One of the documented spellings (picked by `pick`).
     pub fn text(&self, pick: u64) -> String {
         let p = |opts: &[&str]| opts[(pick as usize) % opts.len()].to_string();
+        // a 16-bit number: mostly the plain x0000 form, one time in three any documented spelling
+        let addr = |a: u16| -> String {
+            if (pick / 7) % 3 == 0 {
+                spell(a as u64, pick / 21)
+            } else {
+                format!("x{:04x}", a)
+            }
+        };
         match self {
             Cmd::Step => p(&["step", "s", "STEP", "Step"]),
             Cmd::StepInto(k) => {
@@ -102,25 +145,26 @@ impl Cmd {
                 if *k == 1 && pick % 3 == 0 {
                     name
                 } else {
-                    match pick % 4 {
+                    match pick % 6 {
                         0 => format!("{} {}", name, k),
                         1 => format!("{} #{}", name, k),
                         2 => format!("{} x{:x}", name, k),
-                        _ => format!("{}  {}", name, k),
+                        3 => format!("{}  {}", name, k),
+                        _ => format!("{} {}", name, spell(*k as u64, pick / 6)),
                     }
                 }
             }
             Cmd::StepOut => p(&["step out", "so", "s o", "stepout", "step o", "s out"]),
             Cmd::Continue => p(&["continue", "c", "cont", "CONTINUE"]),
-            Cmd::BreakAdd(a) => format!("{} x{:04x}", p(&["break add", "ba", "b a", "breakadd", "break a", "b add"]), a),
+            Cmd::BreakAdd(a) => format!("{} {}", p(&["break add", "ba", "b a", "breakadd", "break a", "b add"]), addr(*a)),
             Cmd::BreakRemove(a) => {
-                format!("{} x{:04x}", p(&["break remove", "br", "b r", "breakremove", "break r", "b remove"]), a)
+                format!("{} {}", p(&["break remove", "br", "b r", "breakremove", "break r", "b remove"]), addr(*a))
             }
             Cmd::BreakList => p(&["break list", "bl", "b l", "breaklist", "break l"]),
             Cmd::Inspect(s) => s.clone(),
-            Cmd::MoveReg(r, v) => format!("{} r{} x{:04x}", p(&["move", "m"]), r, v),
-            Cmd::MoveMem(a, v) => format!("{} x{:04x} x{:04x}", p(&["move", "m"]), a, v),
-            Cmd::Goto(a) => format!("{} x{:04x}", p(&["goto", "g"]), a),
+            Cmd::MoveReg(r, v) => format!("{} r{} {}", p(&["move", "m"]), r, addr(*v)),
+            Cmd::MoveMem(a, v) => format!("{} {} x{:04x}", p(&["move", "m"]), addr(*a), v),
+            Cmd::Goto(a) => format!("{} {}", p(&["goto", "g"]), addr(*a)),
             Cmd::BreakAddLoc(l) => format!("{} {}", p(&["break add", "ba", "b a"]), l.text(pick / 8)),
             Cmd::BreakRemoveLoc(l) => format!("{} {}", p(&["break remove", "br", "b r"]), l.text(pick / 8)),
             Cmd::GotoLoc(l) => format!("{} {}", p(&["goto", "g"]), l.text(pick / 8)),
